@@ -1520,7 +1520,8 @@ int radsrv(struct request *rq) {
         goto rmclrqexit;
     }
 
-    userascii = radattr2ascii(attr);
+    /* an empty User-Name has no value to convert; radattr2ascii would return NULL for it as for an allocation failure */
+    userascii = attr->l ? radattr2ascii(attr) : (uint8_t *)stringcopy("", 0);
     if (!userascii)
         goto rmclrqexit;
     debug(DBG_INFO, "radsrv: got %s (id %d) with username: %s from client %s (%s)", radmsgtype2string(msg->code), msg->id, userascii, from->conf->name, addr2string(from->addr, tmp, sizeof(tmp)));
